@@ -159,7 +159,7 @@ def main():
         "hooks": {"guard": "SBEPP_VERIF",
                   "enable": "every compile done by ./verif (harness TUs and sbeppc) passes -DSBEPP_VERIF",
                   "baseline_off_cmd": "cmake --build /repo/_build && ctest --test-dir /repo/_build -j8 --timeout 900",
-                  "source_commits": ["ff7f16f"],
+                  "source_commits": ["ff7f16f", "24ac99a"],
                   "add_only": True},
         "engines": [{"name": "tlc+harness", "path": "/verif/verif",
                      "serves_properties": sorted(CHECKS),
